@@ -219,55 +219,29 @@ func c14r1(c *Ctx) {
 	// (a) EachObjectChunker
 	if fn := c.MustFunc(pkgPkgDeploy, "(*EachObjectChunker).Chunk"); fn != nil {
 		o := c.Ob(fn, "each-object-singleton", nil, "EachObjectChunker returns out with out[i] = {phase.Objects[i]} for every i")
-		var problems []string
-		var store *ssa.Store
-		for _, b := range fn.Blocks {
-			for _, in := range b.Instrs {
-				if st, ok := in.(*ssa.Store); ok {
-					if ia, isIA := st.Addr.(*ssa.IndexAddr); isIA {
-						if _, isSl := ia.X.Type().Underlying().(*types.Slice); isSl && strings.HasPrefix(ia.X.Type().String(), "[][]") {
-							if store != nil {
-								problems = append(problems, "more than one store into the result")
-							}
-							store = st
-						}
-					}
-				}
-			}
-		}
-		if store == nil {
-			o.Unknown("no indexed store into the [][]ObjectSetObject result found")
+		col, problems := p.c14FindCollector(fn, func(t types.Type) bool {
+			_, isSl := t.Underlying().(*types.Slice)
+			return isSl && strings.HasPrefix(t.String(), "[][]")
+		})
+		if col == nil {
+			o.Unknown("no indexed store into and no per-iteration append onto the [][]ObjectSetObject result found")
 		} else {
-			il, why := loopAt(fn, store.Block())
-			if il == nil {
-				problems = append(problems, "store into the result: "+why)
-			} else {
-				ia := store.Addr.(*ssa.IndexAddr)
-				if ia.Index != il.Index {
-					problems = append(problems, "result index differs from the object index")
-				}
+			problems = append(problems, col.Problems...)
+			if il := col.IL; il != nil {
 				if !c14IsFieldLoadOfParam(il.Slice, fn.Params[len(fn.Params)-1], "Objects") {
 					problems = append(problems, "loop does not range over phase.Objects")
 				}
-				elems, ok := sliceElems(store.Val)
+				elems, ok := sliceElems(col.Elem)
 				if !ok || len(elems) != 1 || !p.isElemOf(elems[0], il) {
 					problems = append(problems, "stored chunk is not the singleton of the object at the same index")
 				}
-				if !everyIterationPasses(il.L, store) {
+				if col.Site != nil && !everyIterationPasses(il.L, col.Site) {
 					problems = append(problems, "some iteration skips the store")
 				}
-				// out has len(phase.Objects) and is what is returned
-				ms, isMS := ia.X.(*ssa.MakeSlice)
-				if !isMS {
-					problems = append(problems, "result is not a fresh slice")
-				} else {
-					if lc, isCall := ms.Len.(*ssa.Call); !isCall || len(lc.Call.Args) != 1 || !p.sameValue(lc.Call.Args[0], il.Slice) {
-						problems = append(problems, "result length is not len(phase.Objects)")
-					}
-					for _, rc := range p.returnCases(fn) {
-						if isNilConst(stripConv(rc.Results[1])) && rc.Results[0] != ssa.Value(ms) {
-							problems = append(problems, "a different slice is returned")
-						}
+				// out is what is returned
+				for _, rc := range p.returnCases(fn) {
+					if isNilConst(stripConv(rc.Results[1])) && (rc.Results[0] != col.Result || il.L.Body[rc.Ret.Block()]) {
+						problems = append(problems, "a different slice is returned")
 					}
 				}
 			}
@@ -317,7 +291,7 @@ func c14r1(c *Ctx) {
 			// base = load of the same phase's Objects
 			if u, ok := base.(*ssa.UnOp); !ok || u.Op != token.MUL {
 				problems = append(problems, "append base is not phase.Objects")
-			} else if bfa, isFA := u.X.(*ssa.FieldAddr); !isFA || bfa.X != fa.X || bfa.Field != fa.Field {
+			} else if bfa, isFA := u.X.(*ssa.FieldAddr); !isFA || !p.c14SameAddr(bfa.X, fa.X) || bfa.Field != fa.Field {
 				problems = append(problems, "append base is not the Objects of the same phase")
 			}
 			gc, _ := asCall(more)
@@ -331,7 +305,7 @@ func c14r1(c *Ctx) {
 				// inner loop ranges over this phase's Slices
 				if u, ok := inner.Slice.(*ssa.UnOp); !ok || u.Op != token.MUL {
 					problems = append(problems, "inner loop does not range over phase.Slices")
-				} else if sfa, isFA := u.X.(*ssa.FieldAddr); !isFA || sfa.X != fa.X || fieldName(sfa.X.Type(), sfa.Field) != "Slices" {
+				} else if sfa, isFA := u.X.(*ssa.FieldAddr); !isFA || !p.c14SameAddr(sfa.X, fa.X) || fieldName(sfa.X.Type(), sfa.Field) != "Slices" {
 					problems = append(problems, "inner loop does not range over the Slices of the phase being filled")
 				}
 				// objSlice was read by an error-free Get keyed by the slice name of this iteration
@@ -377,6 +351,137 @@ func c14r1(c *Ctx) {
 			o.Fail("%s", strings.Join(problems, "; "))
 		}
 	}
+}
+
+// c14SameAddr: a and b address the same variable: the same SSA value, or &s[i] formed twice from the
+// same slice and the same index value (`phases[i].Slices` ... `phases[i].Objects` without a
+// `phase := &phases[i]` temporary).
+func (p *Program) c14SameAddr(a, b ssa.Value) bool {
+	if a == b {
+		return true
+	}
+	ia, ok1 := a.(*ssa.IndexAddr)
+	ib, ok2 := b.(*ssa.IndexAddr)
+	return ok1 && ok2 && ia.Index == ib.Index && (ia.X == ib.X || p.sameValue(ia.X, ib.X))
+}
+
+// c14Collector is a list filled with exactly one element per iteration of a complete index loop,
+// so that list[i] stems from iteration i:
+//
+//	out := make(T, len(s)); for i := range s { out[i] = x }                       (indexed)
+//	out := make(T, 0, n) | nil | T{}; for i := range s { out = append(out, x) }   (appended)
+type c14Collector struct {
+	IL       *idxLoop
+	Site     ssa.Instruction // the indexed store / the append call
+	Elem     ssa.Value       // x
+	Result   ssa.Value       // the value that is the complete list once the loop has finished
+	Problems []string
+}
+
+// c14FindCollector finds the one list of a type accepted by isList that fn fills element by
+// element. The second result reports ambiguity.
+func (p *Program) c14FindCollector(fn *ssa.Function, isList func(types.Type) bool) (*c14Collector, []string) {
+	var cols []*c14Collector
+	for _, b := range fn.Blocks {
+		for _, in := range b.Instrs {
+			st, ok := in.(*ssa.Store)
+			if !ok {
+				continue
+			}
+			ia, isIA := st.Addr.(*ssa.IndexAddr)
+			if !isIA || !isList(ia.X.Type()) {
+				continue
+			}
+			col := &c14Collector{Site: st, Elem: st.Val, Result: ia.X}
+			cols = append(cols, col)
+			il, why := loopAt(fn, b)
+			if il == nil {
+				col.Problems = append(col.Problems, "store into the list: "+why)
+				continue
+			}
+			col.IL = il
+			if ia.Index != il.Index {
+				col.Problems = append(col.Problems, "element is stored at "+p.describe(ia.Index)+", not at the index of the element it was built from")
+			}
+			ms, isMS := ia.X.(*ssa.MakeSlice)
+			if !isMS {
+				col.Problems = append(col.Problems, "list is not a fresh slice")
+			} else if lc, isCall := ms.Len.(*ssa.Call); !isCall || len(lc.Call.Args) != 1 || !(lc.Call.Args[0] == il.Slice || p.sameValue(lc.Call.Args[0], il.Slice)) {
+				col.Problems = append(col.Problems, "list length is not the length of the slice ranged over")
+			} else if b, isB := lc.Call.Value.(*ssa.Builtin); !isB || b.Name() != "len" {
+				col.Problems = append(col.Problems, "list length is not the length of the slice ranged over")
+			}
+		}
+	}
+	for _, l := range loopsOf(fn) {
+		for _, in := range l.Head.Instrs {
+			ph, ok := in.(*ssa.Phi)
+			if !ok || !isList(ph.Type()) {
+				continue
+			}
+			col := &c14Collector{Result: ph}
+			cols = append(cols, col)
+			il, why := fullIndexLoop(l)
+			if il == nil {
+				col.Problems = append(col.Problems, "loop appending to the list: "+why)
+			}
+			col.IL = il
+			for i, e := range ph.Edges {
+				if !l.Body[l.Head.Preds[i]] {
+					if !c14IsEmptyFreshSlice(e) {
+						col.Problems = append(col.Problems, "the list does not start empty: "+p.describe(e))
+					}
+					continue
+				}
+				if e == ssa.Value(ph) {
+					col.Problems = append(col.Problems, "some iteration reaches the next one without appending")
+					continue
+				}
+				ac, base, more, isApp := appendCall(e)
+				if !isApp {
+					col.Problems = append(col.Problems, "the list carried to the next iteration is not append(list, x): "+p.describe(e))
+					continue
+				}
+				if base != ssa.Value(ph) {
+					col.Problems = append(col.Problems, "the append base is not the list built by the previous iterations")
+				}
+				elems, okE := sliceElems(more)
+				if !okE || len(elems) != 1 {
+					col.Problems = append(col.Problems, "not exactly one element is appended per iteration")
+					continue
+				}
+				if col.Site != nil && col.Site != ssa.Instruction(ac) {
+					col.Problems = append(col.Problems, "several appends feed the list")
+				}
+				col.Site, col.Elem = ac, elems[0]
+			}
+			if col.Site == nil && len(col.Problems) == 0 {
+				col.Problems = append(col.Problems, "no append inside the loop")
+			}
+		}
+	}
+	if len(cols) == 0 {
+		return nil, nil
+	}
+	var problems []string
+	if len(cols) > 1 {
+		problems = append(problems, "more than one list of this type is filled")
+	}
+	col := cols[len(cols)-1]
+	// the loop must not be left early with a partial list (error returns and panics excepted)
+	if col.IL != nil {
+		for b := range col.IL.L.Body {
+			if b == col.IL.L.Head {
+				continue
+			}
+			for _, s := range b.Succs {
+				if !col.IL.L.Body[s] && !isPanicBlock(s) && !isErrorReturnBlock(s) {
+					col.Problems = append(col.Problems, "the loop can be left before every element was handled")
+				}
+			}
+		}
+	}
+	return col, problems
 }
 
 func c14OuterLoop(fn *ssa.Function, inner *Loop) *Loop {
@@ -683,36 +788,20 @@ func c14ChunkPhase(c *Ctx, fn *ssa.Function) {
 	// (1) names by index
 	{
 		o := c.Ob(fn, "slice-name-index", nil, "phase.Slices[i] is the name of the ObjectSlice that was reconciled with chunk i, for every i, and phase.Slices is set to that list")
-		var problems []string
-		var store *ssa.Store
-		for _, b := range fn.Blocks {
-			for _, in := range b.Instrs {
-				if st, ok := in.(*ssa.Store); ok {
-					if ia, isIA := st.Addr.(*ssa.IndexAddr); isIA && ia.X.Type().String() == "[]string" {
-						if store != nil {
-							problems = append(problems, "more than one indexed store into a name list")
-						}
-						store = st
-					}
-				}
-			}
-		}
-		if store == nil || chunks == nil {
-			o.Unknown("indexed store into the slice-name list not found")
+		col, problems := p.c14FindCollector(fn, func(t types.Type) bool { return t.String() == "[]string" })
+		if col == nil || chunks == nil {
+			o.Unknown("neither an indexed store into nor a per-iteration append onto the slice-name list found")
 		} else {
-			ia := store.Addr.(*ssa.IndexAddr)
-			il, why := loopAt(fn, store.Block())
-			if il == nil {
-				problems = append(problems, why)
+			problems = append(problems, col.Problems...)
+			il, store := col.IL, col.Site
+			if il == nil || store == nil {
+				// already reported by the collector
 			} else {
 				if il.Slice != chunks {
 					problems = append(problems, "the loop does not range over the chunks returned by the chunker")
 				}
-				if ia.Index != il.Index {
-					problems = append(problems, "name is stored at "+p.describe(ia.Index)+", not at the index of the chunk it was built from")
-				}
 				// stored value = S.ClientObject().GetName() where S.SetObjects(chunks[i]) and reconcileSlice(..., S) succeeded
-				nc, _ := asCall(store.Val)
+				nc, _ := asCall(col.Elem)
 				var sliceObj ssa.Value
 				if nc != nil && calleeName(nc.Common()) == "GetName" {
 					if co, _ := asCall(callRecv(nc.Common())); co != nil && calleeName(co.Common()) == "ClientObject" {
@@ -768,19 +857,13 @@ func c14ChunkPhase(c *Ctx, fn *ssa.Function) {
 				if !everyIterationPasses(il.L, store) {
 					problems = append(problems, "some iteration reaches the next one without recording a name")
 				}
-				// list length and publication
-				ms, isMS := ia.X.(*ssa.MakeSlice)
-				if !isMS {
-					problems = append(problems, "name list is not a fresh slice")
-				} else {
-					if lc, isCall := ms.Len.(*ssa.Call); !isCall || len(lc.Call.Args) != 1 || lc.Call.Args[0] != chunks {
-						problems = append(problems, "name list length is not len(chunks)")
-					}
+				// publication
+				{
 					published := false
 					for _, b := range fn.Blocks {
 						for _, in := range b.Instrs {
 							st, ok := in.(*ssa.Store)
-							if !ok || st.Val != ssa.Value(ms) {
+							if !ok || st.Val != col.Result {
 								continue
 							}
 							if fa, isFA := st.Addr.(*ssa.FieldAddr); isFA && fa.X == phaseParam && fieldName(fa.X.Type(), fa.Field) == "Slices" && !il.L.Body[b] {
@@ -2190,6 +2273,11 @@ func c14SliceNameOrigin(p *Program, key ssa.Value, deploy *ssa.Parameter, listCa
 			if len(sts) == 1 {
 				return sts[0].Val
 			}
+		case *ssa.IndexAddr:
+			// `phases[i].Slices` read in place (no per-iteration copy of the phase)
+			return x.X
+		case *ssa.FieldAddr:
+			return x.X
 		case *ssa.Field:
 			return x.X
 		case *ssa.Index:
@@ -2199,8 +2287,31 @@ func c14SliceNameOrigin(p *Program, key ssa.Value, deploy *ssa.Parameter, listCa
 		}
 		return nil
 	}
+	// every element taken on the way is the element of the current iteration of a complete index loop
+	// over that very slice (s[0] inside `for i := range s` is one element, not every element)
+	iterElem := func(ia *ssa.IndexAddr) bool {
+		for _, l := range loopsOf(ia.Parent()) {
+			if !l.Body[ia.Block()] {
+				continue
+			}
+			if il, _ := fullIndexLoop(l); il != nil && il.Index == ia.Index && (il.Slice == ia.X || p.sameValue(il.Slice, ia.X)) {
+				return true
+			}
+		}
+		return false
+	}
 	sawSlices := false
-	for i := 0; i < 12 && v != nil; i++ {
+	for i := 0; i < 14 && v != nil; i++ {
+		var via *ssa.IndexAddr
+		switch x := v.(type) {
+		case *ssa.IndexAddr:
+			via = x
+		case *ssa.UnOp:
+			via, _ = x.X.(*ssa.IndexAddr)
+		}
+		if via != nil && !iterElem(via) {
+			return ""
+		}
 		if u, ok := v.(*ssa.UnOp); ok && u.Op == token.MUL {
 			if fa, isFA := u.X.(*ssa.FieldAddr); isFA && namedTypeString(fa.X.Type()) == typePhase && fieldName(fa.X.Type(), fa.Field) == "Slices" {
 				sawSlices = true
